@@ -330,6 +330,16 @@ def rule_ring(ctx, rep):
         tests = pat.loads(w, glob="defer_thread_stop") + qtests
         pat.require(len(tests) >= 2, "%s: wait_defer tests" % fl)
         rep.must_pass("C13.sleep", fl + ".dec≺FULL≺tests", w, dec, tests, lambda i: mm.is_full(i) and i not in dec, what="FULL barrier between announcing sleep (futex dec) and testing stop / queue heads (store→load)")
+        # ... and both tests are made *after* the announcement on every path that goes on to sleep: a stop request (or an entry) that arrives
+        # between an early test and the decrement finds the futex at 0, wakes nobody, and the reclaimer then sleeps with the request pending.
+        # (A test made before the decrement as well is harmless; what matters is that none of the two is missing after it.)
+        wsites = waitloop.wait_sites(w)
+        stop_lds = pat.loads(w, glob="defer_thread_stop")
+        if wsites and dec:
+            rep.must_pass("C13.sleep", fl + ".announce≺stop-test≺sleep", w, dec, wsites, lambda i: i in stop_lds,
+                          what="the stop flag is tested between the sleep announcement (futex dec) and the futex wait: a stop request that landed before the announcement woke nobody")
+            rep.must_pass("C13.sleep", fl + ".announce≺queue-test≺sleep", w, dec, wsites, lambda i: i in qtests,
+                          what="the queue heads are tested between the sleep announcement (futex dec) and the futex wait")
         # the sleep re-check must read the word the producer publishes (queue head), not a private snapshot
         rep.touch(nc)
         pub = set(pat.last_field(s.d["ap"]) for s in head_st)
